@@ -425,7 +425,7 @@ pub fn main(tier: Tier, seed: u64) -> Report {
     if !regress.is_empty() {
         runner::run_cases(&mut rep, "regress", regress, run_case);
     }
-    runner::run_generated(&mut rep, "gen", tier.pick(4000, 150_000), || strategy(tier), run_case);
+    runner::run_generated(&mut rep, "gen", tier.pick(16_000, 150_000), || strategy(tier), run_case);
     rep
 }
 
